@@ -275,9 +275,46 @@ func c04Run(r *core.Run) {
 			defer func() { http.DefaultTransport = old }()
 		}
 		cfg.AuditFile = w.Path("audit.log")
+		world.Bind(w)
+		if t.Chance(1, 8, "malformed-client-entry") {
+			// "a malformed configuration entry yields an error, before any token
+			// or key is touched": the same configuration with one more client
+			// entry whose CA bundle does not parse (truncated certificate) must
+			// be refused - by Normalize or by server.New - with no token opened
+			bad := &config.Config{Tokens: map[string]*config.TokenConfig{}, Keys: map[string]*config.KeyConfig{}, Clients: map[string]*config.ClientConfig{}, Server: &config.ServerConfig{TokenCheckInterval: 3600, TokenCheckTimeout: 5}}
+			for k, v := range cfg.Tokens {
+				c := *v
+				bad.Tokens[k] = &c
+			}
+			for k, v := range cfg.Keys {
+				c := *v
+				bad.Keys[k] = &c
+			}
+			for k, v := range cfg.Clients {
+				c := *v
+				bad.Clients[k] = &c
+			}
+			der := pki["ca-2"].Cert.Raw
+			bad.Clients["build-farm"] = &config.ClientConfig{Nickname: "build-farm", Roles: []string{"r1"},
+				Certificate: string(pem.EncodeToMemory(&pem.Block{Type: "CERTIFICATE", Bytes: der[:len(der)/2]}))}
+			r.Probe("malformed-client-entry-at-start-up")
+			r.Evals++
+			nerr := bad.Normalize("")
+			if nerr == nil {
+				srv2, serr := server.New(bad)
+				if serr == nil {
+					r.Failf("C04.malformed-entry-served", "client-ca-bundle", "a client entry whose CA bundle does not parse was accepted: the configuration loaded and the server started (tokens opened: %d)", len(w.Tokens))
+					srv2.Close()
+				} else if len(w.Tokens) > 0 {
+					r.Failf("C04.touched-before-refusal", "client-ca-bundle", "the server refused to start over a malformed client entry (%v) only after opening %d token(s)", serr, len(w.Tokens))
+				}
+				for k := range w.Tokens {
+					delete(w.Tokens, k)
+				}
+			}
+		}
 		must(cfg.Normalize(""))
 		defer useConfig(cfg)()
-		world.Bind(w)
 		srv, err := server.New(cfg)
 		if err != nil {
 			r.Notes["internal_error"] = "server.New: " + err.Error()
